@@ -123,6 +123,13 @@ package providers
 //@ ensures[no-code-no-session] code == "" ==> ret1 == ErrMissingCode && ret0 == nil
 //@ ensures[request-error-means-no-session] called(Error#1) ==> ret1 == ret(Error#1) && ret0 == nil && ret(Error#0) != nil
 //@ ensures[error-means-no-session] ret1 != nil ==> ret0 == nil
+//@ ensures[session-only-from-an-error-free-200-answer] ret0 != nil ==> called(Do) && ret(Error#0) == nil && ret(StatusCode#0) == 200
+
+// ------------------------------------------------------------------ C14: provider-specific lookups that judge the HTTP status themselves
+//@ func (*GitHubProvider).isCollaborator
+//@ prop C14 C08
+//@ ensures[collaborator-only-on-an-error-free-204] ret0 ==> called(Do) && ret(Error#0) == nil && ret(StatusCode#0) == 204 && ret1 == nil
+//@ ensures[anything-else-is-an-error] !ret0 ==> ret1 != nil
 
 // ------------------------------------------------------------------ C14: access-token validation fails closed
 //@ func validateToken
@@ -133,7 +140,7 @@ package providers
 // ------------------------------------------------------------------ C04: the verifier is built from this provider's options
 //@ func newProviderDataFromConfig
 //@ shallow
-//@ prop C04
+//@ prop C04 C01 C14
 //@ at call NewProviderVerifier assert[verifier-options-from-the-provider-options] arg(NewProviderVerifier, 1).ClientID == providerConfig.ClientID
 //@     && arg(NewProviderVerifier, 1).SkipIssuerVerification == providerConfig.OIDCConfig.InsecureSkipIssuerVerification
 //@     && arg(NewProviderVerifier, 1).AudienceClaims == providerConfig.OIDCConfig.AudienceClaims
@@ -153,7 +160,7 @@ package providers
 
 // ------------------------------------------------------------------ C04 / C05 / C14: providers built on the OIDC provider delegate to it
 //@ func (*MicrosoftEntraIDProvider).ValidateSession
-//@ prop C05 C04 C14
+//@ prop C05 C04 C14 C12 C01
 //@ ensures[valid-only-if-the-oidc-validation-succeeds] result ==> called(ValidateSession) && ret(ValidateSession)
 //@     && arg(ValidateSession, 0) == old(p.OIDCProvider) && arg(ValidateSession, 2) == session
 //@ ensures[unreadable-tenant-is-invalid] ret1(getTenantFromToken) != nil ==> !result
@@ -170,23 +177,23 @@ package providers
 //@     && arg(createSession, 0) == old(p.OIDCProvider) && !arg(createSession, 3)
 
 //@ func (*KeycloakOIDCProvider).CreateSessionFromToken
-//@ prop C04 C14
+//@ prop C04 C14 C01
 //@ ensures[session-only-from-the-oidc-bearer-verification] ret0 != nil ==> called(CreateSessionFromToken) && ret0 == ret0(CreateSessionFromToken)
 //@     && ret1(CreateSessionFromToken) == nil && arg(CreateSessionFromToken, 0) == old(p.OIDCProvider) && arg(CreateSessionFromToken, 2) == token
 
 //@ func (*KeycloakOIDCProvider).RefreshSession
-//@ prop C04 C14
+//@ prop C04 C14 C12
 //@ ensures[refreshed-only-if-the-oidc-refresh-succeeded] ret0 ==> called(RefreshSession) && ret0(RefreshSession) && arg(RefreshSession, 2) == s
 //@     && arg(RefreshSession, 0) == old(p.OIDCProvider)
 //@ ensures[refresh-error-propagates] ret1(RefreshSession) != nil ==> ret1 == ret1(RefreshSession) && ret0 == ret0(RefreshSession)
 
 //@ func (*ADFSProvider).RefreshSession
-//@ prop C04 C14
+//@ prop C04 C14 C12
 //@ ensures[refreshed-iff-the-oidc-refresh-says-so] called(oidcRefreshFunc) && ret0 == ret0(oidcRefreshFunc) && arg(oidcRefreshFunc, 1) == s
 //@ ensures[refresh-error-propagates] ret1(oidcRefreshFunc) != nil ==> ret1 == ret1(oidcRefreshFunc)
 
 //@ func (*GitLabProvider).RefreshSession
-//@ prop C04 C14
+//@ prop C04 C14 C12
 //@ ensures[refreshed-iff-the-oidc-refresh-says-so] called(oidcRefreshFunc) && ret0 == ret0(oidcRefreshFunc) && ret1 == ret1(oidcRefreshFunc)
 //@     && arg(oidcRefreshFunc, 1) == s
 
@@ -195,3 +202,9 @@ package providers
 //@ ensures[nonnil:oidc-provider-over-the-given-provider-data] result != nil && result.ProviderData == p && result.SkipNonce == opts.InsecureSkipNonce
 //@ prop C19
 //@ scan[nonnil:oidc-provider-allocated-by-its-constructor] alloc-of providers.OIDCProvider providers.NewOIDCProvider
+
+// ------------------------------------------------------------------ C05: per-login parameters are never written into shared provider state
+//@ func (*ProviderData).LoginURLParams
+//@ fresh
+//@ prop C05
+//@ ensures[a-map-of-its-own-for-every-login] result != nil
